@@ -394,3 +394,45 @@ def admin_only_gate(F):
     if ao and wit is None:
         return True, ""
     return False, (s.describe_path(wit) if wit else "admin_only is never tested")
+
+
+def reentrant_lock_findings(F, scope=lambda n: n.startswith("pgcat::")):
+    """a lock of a shared structure is taken again while a guard of the same lock is alive in the same function: parking_lot locks are
+    not re-entrant, `read()` then `write()` on one thread blocks for ever (and the queued writer blocks every later reader).
+    Guard liveness: from the lock call that produces a guard local to the drop / StorageDead / move of that local.
+    Returns [(fn, field, first_where, second_where)]"""
+    GUARD = re.compile(r"lock_api::(mutex::MutexGuard|rwlock::RwLock(Read|Write|UpgradableRead)Guard)|std::sync::(poison::)?(mutex::MutexGuard|rwlock::RwLock(Read|Write)Guard)")
+    LOCK = "re:^lock_api::(mutex::Mutex|rwlock::RwLock)<.*>::(lock|read|write|upgradable_read)$|^lock_api::(mutex::Mutex|rwlock::RwLock)::(lock|read|write|upgradable_read)$|^std::sync::(poison::)?(mutex::Mutex|rwlock::RwLock)::.*(lock|read|write)$"
+    out = []
+    n_guards = 0
+    for n, b in sorted(F.bodies.items()):
+        if not scope(n):
+            continue
+        locks = b.calls(LOCK)
+        if len(locks) < 2:
+            continue
+
+        def lock_field(c):
+            fl = [p_[1:] for o in origins(b, c.args[0], taint=True) if o.kind in ("place", "param") for p_ in o.proj if p_.startswith(".") and not p_[1:].isdigit()]
+            return fl[-1] if fl else None
+        for c in locks:
+            l = c.dest["l"]
+            if c.dest["p"] or not GUARD.search(b.locals[l]["ty"]) or not b.varnames.get(l):
+                continue   # temporaries are dropped at the end of their statement
+            n_guards += 1
+            ends = {bb for bb, blk in enumerate(b.blocks) if blk["term"]["k"] == "drop" and blk["term"]["pl"]["l"] == l and not blk["term"]["pl"]["p"]}
+            ends |= {bb for bb, blk in enumerate(b.blocks) for st in blk["stmts"] if st["k"] == "dead" and st["l"] == l}
+            ends |= {k.block for k in b.calls() if any(a.get("c") == "move" and op_place(a) and op_place(a)["l"] == l and not op_place(a)["p"] for a in k.args)}
+            # moved away (`drop(guard)` goes through a temporary)
+            ends |= {bb for bb, i, st in b.assigns() if st["rv"]["k"] == "use" and st["rv"]["op"].get("c") == "move" and op_place(st["rv"]["op"]) and op_place(st["rv"]["op"])["l"] == l and not op_place(st["rv"]["op"])["p"]}
+            if c.target is None:
+                continue
+            region = b.reach([c.target], avoid_blocks=sorted(ends))
+            f1 = lock_field(c)
+            for c2 in locks:
+                if c2.block != c.block and c2.block in region and lock_field(c2) == f1 and f1 is not None:
+                    kinds = (c.name.split("::")[-1], c2.name.split("::")[-1])
+                    if kinds == ("read", "read"):
+                        continue
+                    out.append((n, f1, c.where(), c2.where(), kinds))
+    return out, n_guards
